@@ -2020,6 +2020,25 @@ class Array(DaskMethodsMixin):
         )
 
         index2 = normalize_index(index, self.shape)
+
+        if any(i is None for i in index2) and any(
+            isinstance(i, Array) or (isinstance(i, np.ndarray) and i.ndim > 0)
+            for i in index2
+        ):
+            # The code paths for array indices do not handle None.  Apply the
+            # index without None first, then insert the new axes: an integer
+            # (or 0-d array) drops its dimension, every other entry keeps one.
+            without_none = tuple(i for i in index2 if i is not None)
+            new_axes = tuple(
+                None if i is None else slice(None)
+                for i in index2
+                if i is None
+                or not (
+                    isinstance(i, Integral) or (isinstance(i, Array) and i.ndim == 0)
+                )
+            )
+            return self[without_none][new_axes]
+
         dependencies = {self.name}
         for i in index2:
             if isinstance(i, Array):
